@@ -1232,3 +1232,30 @@ def scriptedScore (pol : Policy) (batchable : Bool) (tup : Bool) : Scorer
   | .batch cs rows acts => if batchable then .ok (mkSeq tup (scoresOf pol cs rows acts)) else .error .learner
 
 end Coba.C15
+
+namespace Coba.C15
+
+/-! ### re-wrapping: `SafeLearner(SafeLearner(learner), seed)` -/
+
+/-- `SafeLearner.__init__`: wrapping an existing SafeLearner unwraps it to its learner; the new wrapper starts from its
+OWN state (its own generator `CobaRandom(seed)`, an empty `_method` memo, nothing detected): nothing is shared -/
+def rewrap (_inner : State) (seed : Int) : State := initState seed
+
+/-- two wrappers around one learner, called in any interleaving (`true` = the outer one); a call that raises leaves the
+wrapper's modelled state as it was -/
+def runTwo (fx : Fixes) (L : Learner) : State → State → List (Bool × Arg) → List (Bool × Except Err Result)
+  | _, _, [] => []
+  | s0, s1, (w, a) :: h =>
+    match predict fx L (if w then s1 else s0) a with
+    | .ok (r, s') => (w, .ok r) :: (if w then runTwo fx L s0 s' h else runTwo fx L s' s1 h)
+    | .error e => (w, .error e) :: runTwo fx L s0 s1 h
+
+/-- one wrapper on its own calls -/
+def runOne (fx : Fixes) (L : Learner) : State → List Arg → List (Except Err Result)
+  | _, [] => []
+  | s, a :: h =>
+    match predict fx L s a with
+    | .ok (r, s') => .ok r :: runOne fx L s' h
+    | .error e => .error e :: runOne fx L s h
+
+end Coba.C15
